@@ -20,8 +20,9 @@ RULE = (
     "objects; deepcopy an object and mutate the copy or the original. Oracle: the public-attribute snapshot of both "
     "operands is identical before and after every query; the query's answer on the pool objects equals its answer "
     "on objects freshly built from the exact model (so it cannot depend on earlier queries); after mutating a "
-    "constructor argument the snapshots of all composites built from it are unchanged and they still denote "
-    "their model; a deep copy is ==, hash-equal and snapshot-independent in both directions. non-trivial = history "
+    "constructor argument the snapshots and measures of all composites built from it are unchanged, they still denote "
+    "their model, and the mutated argument equals and hashes like a fresh one (every pool object is hashed before "
+    "each mutation); a deep copy is ==, hash-equal and snapshot-independent in both directions. non-trivial = history "
     "with a mutation of a shared argument after a construction from it, or >= 2 queries on the same operand; "
     "distinct = distinct history."
 )
